@@ -456,4 +456,77 @@ def validatorBodies : List (String × List String × List Stmt) :=
    ("_validate_c2c_expansion", ["c2c_expansion"], [.raiseIf (.cmp .eq (.var "c2c_expansion") (.lit 0))]),
    ("_validate_total_expansion", ["expansion"], [.raiseIf (.cmp .eq (.var "expansion") (.lit 0))])]
 
+/-! ### `Chop.invert` as a statement list -/
+
+/-- the statements `Chop.invert` consists of -/
+inductive IStmt where
+  /-- `self.t1, self.t2 = self.v1, self.v2` -/
+  | assign2 (t1 t2 v1 v2 : String)
+  /-- `if self.x is not None: self.y = 1 / self.z` -/
+  | ifsetRecip (x y z : String)
+  /-- `if self.f == c1: self.g1 = n1  elif self.f == c2: self.g2 = n2 …` -/
+  | case (field : String) (arms : List (String × String × String))
+  deriving Repr
+
+def encArms : List (String × String × String) → List String
+  | [] => []
+  | (c, g, n) :: rest => c :: g :: n :: encArms rest
+
+def IStmt.enc : IStmt → List String
+  | .assign2 t1 t2 v1 v2 => ["assign2", t1, t2, v1, v2]
+  | .ifsetRecip x y z => ["ifset", x, "recip", y, z]
+  | .case f arms => "case" :: f :: digitTok arms.length :: encArms arms
+
+def encIBody : List IStmt → List String
+  | [] => []
+  | s :: rest => s.enc ++ encIBody rest
+
+/-- the four rational fields of a chop -/
+def fieldQ (x : String) : Option Q :=
+  match Q.ofString? x with
+  | some .count => none
+  | q => q
+
+def Vals.setOpt (v : Vals) (q : Q) (x : Option Rat) : Vals :=
+  match q with
+  | .count => v
+  | .start => { v with start := x }
+  | .end_ => { v with end_ := x }
+  | .c2c => { v with c2c := x }
+  | .total => { v with total := x }
+
+/-- the statements in order on (fields, `preserve`); an exception stops the run and leaves the state reached -/
+def runI : List IStmt → Vals × Q → (Vals × Q) × Option Err
+  | [], st => (st, none)
+  | .assign2 t1 t2 v1 v2 :: rest, (v, p) =>
+      match fieldQ t1, fieldQ t2, fieldQ v1, fieldQ v2 with
+      | some a, some b, some c, some d => runI rest ((v.setOpt a (v.get c)).setOpt b (v.get d), p)
+      | _, _, _, _ => ((v, p), some .table)
+  | .ifsetRecip x y z :: rest, (v, p) =>
+      match fieldQ x, fieldQ y, fieldQ z with
+      | some a, some b, some c =>
+          match v.get a with
+          | none => runI rest (v, p)
+          | some _ =>
+              match v.get c with
+              | none => ((v, p), some .table)
+              | some w => if w = 0 then ((v, p), some .zeroDiv) else runI rest (v.setOpt b (some (1 / w)), p)
+      | _, _, _ => ((v, p), some .table)
+  | .case f arms :: rest, (v, p) =>
+      if f = "preserve" then
+        match arms.find? (fun a => a.1 = p.name) with
+        | none => runI rest (v, p)
+        | some (_, g, n) =>
+            match Q.ofString? n with
+            | some q => if g = "preserve" then runI rest (v, q) else ((v, p), some .table)
+            | none => ((v, p), some .table)
+      else ((v, p), some .table)
+
+/-- `Chop.invert` as the model knows it (pinned to `CBV.Gen.c03InvertBody` by `T_C03_translated_invert`) -/
+def invertBody : List IStmt :=
+  [.assign2 "end_size" "start_size" "start_size" "end_size",
+   .ifsetRecip "c2c_expansion" "c2c_expansion" "c2c_expansion",
+   .ifsetRecip "total_expansion" "total_expansion" "total_expansion",
+   .case "preserve" [("start_size", "preserve", "end_size"), ("end_size", "preserve", "start_size")]]
+
 end CBV.C03
